@@ -23,7 +23,7 @@ import (
 // statements ran, so "skipping everything after the return" is observed directly.
 
 type c16Val struct {
-	K string // int | str | bool | fn | arr
+	K string // int | str | bool | fn | arr | nil
 	I int
 	S string
 	B bool
@@ -39,6 +39,8 @@ func (v c16Val) Render() string {
 		return v.S
 	case "bool":
 		return strconv.FormatBool(v.B)
+	case "nil":
+		return ""
 	}
 	return "<fn>"
 }
@@ -54,6 +56,12 @@ func (v c16Val) Src() string {
 		}
 		return "[" + strings.Join(ss, ", ") + "]"
 	}
+	if v.K == "nil" {
+		return "nil"
+	}
+	if v.K == "fn" {
+		return v.F.Name
+	}
 	return v.Render()
 }
 
@@ -64,12 +72,14 @@ func (v c16Val) GoFmt() string {
 		return "int:" + v.Render()
 	case "str":
 		return "string:" + v.S
+	case "nil":
+		return "<nil>:<nil>"
 	}
 	return "bool:" + v.Render()
 }
 
 type c16Expr struct {
-	T    string // lit | var | bin | not | call
+	T    string // lit | var | bin | not | call | raw (N = source text, V = its value) | list (Args = the elements)
 	V    c16Val
 	N    string // var name / callee name
 	Op   string
@@ -81,10 +91,16 @@ func (e *c16Expr) Src() string {
 	switch e.T {
 	case "lit":
 		return e.V.Src()
-	case "var":
+	case "var", "raw":
 		return e.N
 	case "not":
 		return "!" + e.L.Src()
+	case "list":
+		ss := []string{}
+		for _, a := range e.Args {
+			ss = append(ss, a.Src())
+		}
+		return "[" + strings.Join(ss, ", ") + "]"
 	case "call":
 		ss := []string{}
 		for _, a := range e.Args {
@@ -187,16 +203,27 @@ func (m *c16Ref) eval(e *c16Expr, env *c16Env) c16Val {
 		panic(c16Stuck{"too many steps"})
 	}
 	switch e.T {
-	case "lit":
+	case "lit", "raw":
 		return e.V
+	case "list":
+		vs := []c16Val{}
+		for _, a := range e.Args {
+			vs = append(vs, m.eval(a, env))
+		}
+		return c16Val{K: "arr", A: &vs}
 	case "var":
 		v, ok := env.get(e.N)
 		if !ok {
 			panic(c16Stuck{"unbound " + e.N})
 		}
+		if v.K == "nil" {
+			// open: plush treats a variable that holds nil as unset everywhere (not only for parameters); only
+			// ==, !=, !, &&, || and conditions accept it (see operand)
+			panic(c16Stuck{"variable holding nil used as a value: " + e.N})
+		}
 		return v
 	case "not":
-		return c16Val{K: "bool", B: !m.eval(e.L, env).B}
+		return c16Val{K: "bool", B: !c16Truth(m.operand(e.L, env))}
 	case "call":
 		fv, ok := env.get(e.N)
 		if !ok || fv.K != "fn" {
@@ -224,21 +251,30 @@ func (m *c16Ref) eval(e *c16Expr, env *c16Env) c16Val {
 		}
 		return v
 	}
-	l := m.eval(e.L, env)
-	if e.Op == "&&" && !l.B {
+	b := func(x bool) c16Val { return c16Val{K: "bool", B: x} }
+	sub := m.eval
+	switch e.Op {
+	case "==", "!=", "&&", "||":
+		sub = m.operand
+	}
+	l := sub(e.L, env)
+	if e.Op == "&&" && !c16Truth(l) {
 		return c16Val{K: "bool"}
 	}
-	if e.Op == "||" && l.B {
+	if e.Op == "||" && c16Truth(l) {
 		return c16Val{K: "bool", B: true}
 	}
-	r := m.eval(e.R, env)
+	r := sub(e.R, env)
+	if e.Op == "&&" || e.Op == "||" {
+		return b(c16Truth(r))
+	}
 	if l.K != r.K {
+		if (l.K == "nil" || r.K == "nil") && (e.Op == "==" || e.Op == "!=") { // nil equals nil only
+			return b(e.Op == "!=")
+		}
 		panic(c16Stuck{"mixed operand types"})
 	}
-	b := func(x bool) c16Val { return c16Val{K: "bool", B: x} }
 	switch e.Op {
-	case "&&", "||":
-		return b(r.B)
 	case "==":
 		return b(l == r)
 	case "!=":
@@ -264,6 +300,32 @@ func (m *c16Ref) eval(e *c16Expr, env *c16Env) c16Val {
 		}
 	}
 	panic(c16Stuck{"operator " + e.Op + " on " + l.K})
+}
+
+// c16Truth: what a condition makes of a value: a bool is itself, nil is false, a non-empty string is true. Other
+// values are not used as conditions here.
+func c16Truth(v c16Val) bool {
+	switch {
+	case v.K == "bool":
+		return v.B
+	case v.K == "nil":
+		return false
+	case v.K == "str" && v.S != "":
+		return true
+	}
+	panic(c16Stuck{"truth of " + v.K})
+}
+
+// operand: an operand of ==, !=, !, &&, || or a condition: the places in which a variable that holds nil may be
+// mentioned.
+func (m *c16Ref) operand(e *c16Expr, env *c16Env) c16Val {
+	if e.T == "var" {
+		if v, ok := env.get(e.N); ok && v.K == "nil" {
+			m.steps++
+			return v
+		}
+	}
+	return m.eval(e, env)
 }
 
 func (m *c16Ref) run(ss []*c16Stmt, env *c16Env) (c16Val, bool) {
@@ -294,10 +356,10 @@ func (m *c16Ref) run(ss []*c16Stmt, env *c16Env) (c16Val, bool) {
 				}
 			}
 		case "if":
-			body, taken := s.Then, m.eval(s.E, env).B
+			body, taken := s.Then, c16Truth(m.operand(s.E, env))
 			if !taken {
 				for _, e := range s.Elifs {
-					if m.eval(e.C, env).B {
+					if c16Truth(m.operand(e.C, env)) {
 						body, taken = e.Body, true
 						break
 					}
@@ -325,6 +387,20 @@ type c16Case struct {
 	Arity bool   `json:"arity,omitempty"` // too few arguments: anything but a panic / hang is accepted
 	Shape string `json:"shape"`
 	Site  string `json:"site"` // how the call's value is used
+	// context values (name -> literal in template syntax) besides the helpers
+	Ctx map[string]string `json:"ctx,omitempty"`
+}
+
+// c16GoVal: the Go value of a literal written in template syntax ("x", 2, true).
+func c16GoVal(src string) interface{} {
+	if s, err := strconv.Unquote(src); err == nil {
+		return s
+	}
+	if src == "true" || src == "false" {
+		return src == "true"
+	}
+	n, _ := strconv.Atoi(src)
+	return n
 }
 
 func c16JSON(v interface{}) string {
@@ -340,7 +416,7 @@ type c16Verdict struct{ Kind, Site, What, Obs string }
 func c16Eval(cs *c16Case) c16Verdict {
 	var mu sync.Mutex
 	marks := []int{}
-	ctx := plush.NewContextWith(map[string]interface{}{
+	data := map[string]interface{}{
 		// also the fuel of recursive programs: a runaway recursion is cut by an error instead of
 		// exhausting the stack of a goroutine that cannot be killed
 		"c16mark": func(id int) error {
@@ -353,7 +429,14 @@ func c16Eval(cs *c16Case) c16Verdict {
 			return nil
 		},
 		"c16show": func(v interface{}) string { return fmt.Sprintf("%T:%v", v, v) },
-	})
+		// sources of nil values: a missing key of c16m, the result of c16nil()
+		"c16m":   map[string]interface{}{"x": "x", "y": "y"},
+		"c16nil": func() interface{} { return nil },
+	}
+	for k, v := range cs.Ctx {
+		data[k] = c16GoVal(v)
+	}
+	ctx := plush.NewContextWith(data)
 	o := safeCall(3*time.Second, func() (string, error) { return plush.Render(cs.Tmpl, ctx) })
 	switch o.Kind() {
 	case "PANIC":
@@ -407,10 +490,12 @@ func c16Record(rep *Report, cs *c16Case, v c16Verdict) {
 func init() {
 	oracles["C16"] = func(cfg Config) []*Report {
 		rep := NewReport("C16", "C16", cfg)
-		rep.Rule = "generated functions of 0-4 typed parameters (int/string/bool) whose bodies are decision chains (if / else-if / else, nested ifs, let-bound locals, returns of parameters, literals, concatenations, sums, comparisons; c16mark statements before and after returns), called with ALL tuples over {0,1,2} x {\"x\",\"y\"} x {true,false}; arguments written as literals, as caller variables named like the parameters in the same order, permuted (f(b, a)), or as expressions over them (f(b, a + 1)); the value used in an output tag, an if condition, ==, let (+ later ==), as argument of another user function and of a Go helper (which must receive the plain Go value), in string concatenation / arithmetic / negation; first-class use (stored in a variable, passed as an argument and called through a parameter, also with parameter names that collide); recursion to depth 6 (countdown, sum, factorial, string building, accumulators in both parameter orders, fibonacci, mutual recursion, let-bound intermediate); too few arguments (must not panic); arguments that are, or contain, user function calls, in every argument position (the function itself with another tuple, another generated decision chain, identity / k-th-of-m projection functions whose other arguments differ from the outer call's, two levels deep, as operand of an argument expression; also through a stored / passed function), recursion through an argument (add(n, sum(n - 1)), f(n - 1, f(0, ..)) in first and later positions); a second call of the function after an earlier call with another tuple; loops in function bodies (for { if { return } }, for { return }, nested for, for inside if / else, two loops; arrays passed as literal / caller variable or written in the body; marks before, inside and after the loop). Expected value and executed marks from a call-by-value reference evaluator. Every case calls a user function; non-trivial = all; distinct by case text"
+		rep.Rule = "generated functions of 0-4 typed parameters (int/string/bool) whose bodies are decision chains (if / else-if / else, nested ifs, let-bound locals, returns of parameters, literals, concatenations, sums, comparisons; c16mark statements before and after returns), called with ALL tuples over {0,1,2} x {\"x\",\"y\"} x {true,false}; arguments written as literals, as caller variables named like the parameters in the same order, permuted (f(b, a)), or as expressions over them (f(b, a + 1)); the value used in an output tag, an if condition, ==, let (+ later ==), as argument of another user function and of a Go helper (which must receive the plain Go value), in string concatenation / arithmetic / negation; first-class use (stored in a variable, passed as an argument and called through a parameter, also with parameter names that collide); recursion to depth 6 (countdown, sum, factorial, string building, accumulators in both parameter orders, fibonacci, mutual recursion, let-bound intermediate); too few arguments (must not panic); arguments that are, or contain, user function calls, in every argument position (the function itself with another tuple, another generated decision chain, identity / k-th-of-m projection functions whose other arguments differ from the outer call's, two levels deep, as operand of an argument expression; also through a stored / passed function), recursion through an argument (add(n, sum(n - 1)), f(n - 1, f(0, ..)) in first and later positions); a second call of the function after an earlier call with another tuple; loops in function bodies (for { if { return } }, for { return }, nested for, for inside if / else, two loops; arrays passed as literal / caller variable or written in the body; marks before, inside and after the loop); nil- and zero-valued arguments (optional parameters with values nil / \"\" 0 false / another value, every tuple with a nil among up to 12 per function; nil written as nil, a missing map key, the result of a helper; the body tests such parameters with == nil, != nil, nil ==, truth, !, == value) while a non-nil variable named like each parameter is visible from the call site: a let, a loop variable, a value of the render context, the parameter of a calling function, the same parameter of the calling invocation (recursions that pass nil on, depth 0..6); histories in which ONE call site is evaluated several times while its callee name holds different functions (2-4 generated chains of one signature with disjoint marks): a higher-order function used 2-5 times with alternating function arguments (named, stored, or the value of a chooser function; result returned / let-bound / compared / tested / concatenated inside it), a loop variable ranging over a list of functions (also nested with a loop over argument values, list stored first), a free name re-bound (assignment or let) between uses of the function that calls it, recursive / composing combinators (rep, twice, comp, zig) whose callbacks change between uses, a local that holds either function, and one call site in a loop over argument values. Expected value and executed marks from a call-by-value reference evaluator. Every case calls a user function; non-trivial = all; distinct by case text"
 		rep.Notes = append(rep.Notes,
 			"not checked (open): too many arguments; a function whose body reaches no return; text emitted inside a function body; let inside a loop body; too few arguments is only required not to panic or hang",
 			"family ids are derived from the shape of the case, not from the symptom: args-evaluated-in-callee-scope = arguments mention caller variables named like parameters in another position; call-value-is-return-object = the call's value is consumed by anything other than an output tag; cases with both features are reduced to one feature when that still fails; argument-is-call-result = an argument of the call is (or contains) a user function call (arguments that are calls are turned back into their plain values while the case still fails); call-after-earlier-call = the function was called before with other arguments",
+			"nil-argument-binds-parameter: plush treats a variable that holds nil as unset everywhere (a plain let too), so a parameter bound to nil can only be mentioned in ==, !=, !, &&, || and conditions; only those uses are generated and checked, anything else is left open (the reference refuses it: not-a-case). Passing a nil-valued variable on as an argument is open for the same reason",
+			"histories (…-another-function, loop-over-…, local-holds-either-function): every emitted value is followed by |; a history that still fails after it was reduced to a single use is reported as <family>:single-use (then the failure does not need several uses)",
 			"return-inside-loop-does-not-end-function: the property says the call yields the value of the first return reached, skipping everything after it; in plush a return inside a for body only ends that iteration. Cases of the loop family in which the reference reaches a return inside a loop are reported under this one id, the others under loop-in-function-body")
 		if cfg.Arg != "" {
 			var cs c16Case
